@@ -6,6 +6,7 @@ import importlib
 import lib
 
 ALPHA = ['a', 'b', '"', ',', '\n', '\r', '\r', '\n', '\r\n', '#', ' ']
+UALPHA = ['a', '"', ',', '\n', '\r', '\r\n', '#', '\u00e9', '\u20ac', '\ufeff', 'b,c', '\n']
 
 
 def run(ctx, theorem):
@@ -17,6 +18,24 @@ def run(ctx, theorem):
         text = ''.join(rng.choice(ALPHA) for _ in range(rng.randint(3, 7)))[:8]
         c = rng.choice(cfgs)
         cases.append(dict(c, kind='all', data=[ord(x) for x in text], encoding='utf-8', header=rng.random() < 0.3, modes=['from', 'push'], part='c12js'))
+    # "a leading UTF-8 BOM is dropped with a warning" and "any partition of the BYTES of its UTF-8 / latin-1 encoding": inputs that start
+    # with a BOM (or with a proper prefix of one, or carry one later) followed by mixed line endings and multi-byte characters, under both
+    # encodings, on ALL byte partitions - in particular the ones that cut inside the BOM, so that the first chunk is not the first line
+    limit = 9 if ctx.tier == 'quick' else 11
+    for _ in range(90 if ctx.tier == 'quick' else 3000):
+        enc = rng.choice(['utf-8', 'binary'])
+        body = [rng.choice(UALPHA) for _ in range(rng.randint(0, 5))]
+        if enc == 'utf-8':
+            lead = rng.choice([[0xEF, 0xBB, 0xBF]] * 4 + [[], [0xEF, 0xBB, 0xBF, 0xEF, 0xBB, 0xBF]])
+        else:
+            lead = rng.choice([[0xEF, 0xBB, 0xBF]] * 4 + [[0xEF], [0xEF, 0xBB], [0xBB, 0xBF], [0xEF, 0xBB, 0xBF, 0xEF, 0xBB, 0xBF]])
+        while len(lead) + len(''.join(body).encode('utf-8')) > limit:
+            body.pop()
+        data = lead + list(''.join(body).encode('utf-8'))
+        c = rng.choice(cfgs)
+        cases.append(dict(c, kind='all', data=data, encoding=enc, header=rng.random() < 0.4, modifier=rng.choice([None, None, None, True, False]),
+                          modes=['from', 'push'], part='c12js'))
+        ctx.stat('js_leg_bom_inputs_' + enc)
     tabs, have = c20.tables_for(cases)
     if not have:
         raise lib.CheckFailure('rbql-js csv_utils.smart_split not available: no oracle for the quoted policies')
@@ -27,7 +46,9 @@ def run(ctx, theorem):
         runs = (1 << max(0, len(c['data']) - 1)) * 2 + 1
         ctx.count(runs)
         ctx.stat('js_leg_partition_runs', runs)
-        ctx.nontriv(('c12js', bytes(c['data']), c['policy'], c['comment'], c['header']))
+        ctx.nontriv(('c12js', bytes(c['data']), c['policy'], c['comment'], c['header'], c['encoding'], c.get('modifier')))
+    ctx.rule += ('; inputs starting with a UTF-8 BOM (or a proper prefix of one, or two) + multi-byte characters under encodings utf-8 and binary, header / query modifier on and off, '
+                 'on ALL byte partitions (incl. the cuts inside the BOM)')
     ctx.rule += ('; JavaScript leg: %d texts of 3-8 characters over {a b " , LF CR CRLF # space} (mixed line endings) on ALL byte partitions x 2 delivery modes + bulk path through the '
                  'rbql-js reader against the reader specification') % len(cases)
 
